@@ -1294,7 +1294,7 @@ def main():
             # [T; N]::unpack_from_slice = chunks_exact().take(N).map().collect(): CBMC cannot see the trip
             # count of the nested iterator loops; N + 2 is enough (unwinding assertions are on)
             o.w("//@ unwindset: ChunksExact:%d" % (amax + 2))
-        o.w("//@ timeout: 600")
+        o.w("//@ timeout: %d" % (600 if tier_ == "quick" else 1200))
         fns = []
         for i in idents:
             t = fam.types[i]
